@@ -61,6 +61,13 @@ def _eval_requirement(body, ap, req):
             continue
         if not g.dom and not req.get('any_path'):
             continue      # a check on only some of the paths to the accept site does not gate it
+        if req.get('quantifier') == 'forall' and g.kind == 'call':
+            w = g.what or ''
+            # a validation of *every* element: all(pred) must hold, or any(violates) must not
+            if w.endswith('Iterator::any') and g.truth is not False:
+                continue
+            if w.endswith('Iterator::all') and g.truth is not True:
+                continue
         if callee_any and not (g.kind == 'call' and any(c in (g.what or '') for c in callee_any)):
             if not (ops_any and g.kind == 'cmp' and g.what in ops_any):
                 continue
